@@ -16,7 +16,29 @@ fn real_main() {
     let mut input = String::new();
     std::io::Read::read_to_string(&mut std::io::stdin(), &mut input).unwrap();
     let tasks: Vec<probe_tasks::Task> = serde_json::from_str(&input).expect("tasks");
-    let out: Vec<serde_json::Value> = tasks.iter().map(probe_tasks::run_task).collect();
+    // fixed task -> worker assignment (round robin), results re-assembled in task order
+    let workers = 16usize.min(tasks.len().max(1));
+    let mut out: Vec<serde_json::Value> = vec![serde_json::Value::Null; tasks.len()];
+    let parts: Vec<Vec<(usize, serde_json::Value)>> = std::thread::scope(|s| {
+        let handles: Vec<_> = (0..workers)
+            .map(|w| {
+                let tasks = &tasks;
+                std::thread::Builder::new()
+                    .stack_size(128 << 20)
+                    .spawn_scoped(s, move || {
+                        lib_api::install_panic_hook();
+                        tasks.iter().enumerate().filter(|(i, _)| i % workers == w).map(|(i, t)| (i, probe_tasks::run_task(t))).collect::<Vec<_>>()
+                    })
+                    .unwrap()
+            })
+            .collect();
+        handles.into_iter().map(|h| h.join().unwrap()).collect()
+    });
+    for p in parts {
+        for (i, v) in p {
+            out[i] = v;
+        }
+    }
     println!("{}", serde_json::to_string(&serde_json::json!({"limits": probe_tasks::build_limits(), "results": out})).unwrap());
 }
 
